@@ -55,6 +55,8 @@ var Shapes = map[string][]string{
 	"two-big": {"x.pv.300000000.0", "d", "x.pv.500000000.1", "d"},
 	// more coins than the input cap in three value classes, created in an order that puts a
 	// large coin first and medium ones after hundreds of tiny ones: the K largest must be found
+	// the same three classes as outputs of ONE transaction in the order large, 648 tiny, 10 medium
+	"top-k-ordered": {"x.px.0.0", "d"},
 	"top-k-mixed": {"x.pv.900000000.0", "d", "x.pm.330.10000", "d", "x.pm.5.60000000", "d", "x.pm.340.10000", "d", "x.pm.5.60000000", "d", "x.pv.50000000.0", "d"},
 }
 
